@@ -86,7 +86,7 @@ func VerifC05HandleData() {
 	go c.HandleData()
 	verifSettle()
 	flushTicker := verifTickerIdx("conn.go")
-	k := 1 + verifChoice("nlines", 3)
+	k := 1 + verifChoice("nlines", verifParamInt("maxlines", 3))
 	var want []byte
 	var lines [][]byte
 	for i := 0; i < k; i++ {
